@@ -5,7 +5,7 @@ import json, os, shutil, glob, re, subprocess
 root = '/verif'
 notes = json.load(open(f'{root}/seeded/notes.json')) if os.path.exists(f'{root}/seeded/notes.json') else {}
 rows = []
-for d in sorted(glob.glob('/tmp/mut/C??.out/[AB]')) + sorted(glob.glob('/tmp/mut/C??.out2/[AB]')) + sorted(glob.glob('/tmp/mut/C??.out3/[AB]')) + sorted(glob.glob('/tmp/mut/C??.out4/[AB]')) + sorted(glob.glob('/tmp/mut/C??.out5/[AB]')):
+for d in sorted(glob.glob('/tmp/mut/C??.out/[AB]')) + sorted(glob.glob('/tmp/mut/C??.out2/[AB]')) + sorted(glob.glob('/tmp/mut/C??.out3/[AB]')) + sorted(glob.glob('/tmp/mut/C??.out4/[AB]')) + sorted(glob.glob('/tmp/mut/C??.out5/[AB]')) + sorted(glob.glob('/tmp/mut/C??.out6/[AB]')):
     pid = os.path.basename(os.path.dirname(d))[:3]; x = os.path.basename(d)
     if d.split('/')[-2].endswith('.out2'):
         x = {'A': 'C', 'B': 'D'}[x]  # second round
@@ -15,6 +15,8 @@ for d in sorted(glob.glob('/tmp/mut/C??.out/[AB]')) + sorted(glob.glob('/tmp/mut
         x = {'A': 'G', 'B': 'H'}[x]  # fourth round
     if d.split('/')[-2].endswith('.out5'):
         x = {'A': 'I', 'B': 'J'}[x]  # fifth round
+    if d.split('/')[-2].endswith('.out6'):
+        x = {'A': 'K', 'B': 'L'}[x]  # sixth round
     name = pid + x
     if not os.path.exists(f'{d}/patch.diff') or not os.path.exists(f'{d}/meta.json'): continue
     if not os.path.exists(f'{d}/confirm.json'): continue  # not confirmed (yet)
